@@ -2,12 +2,14 @@
 //
 // Bounds (same in both tiers unless noted): hand-written dag-pb blocks (protowire + gogo
 // unixfs_pb, decoded with go-codec-dagpb) over
-//   link lists: none, one named, three named (unicode / spaces), unnamed links;
-//   Data: absent; garbage (bad wire types, truncated varint, random bytes x 20 | 2000 draws);
-//     every UnixFS type 0..5 with and without inline bytes; unknown type numbers {6,7,100,2^31-1};
-//     HAMT parameter grid: fanout {absent,0,3,7,12,1000,2048,4096,2^40,8,16,256,1024} x hashType
-//     {absent,0x22,0x12,0} x bitfield {absent, exact, one byte too long, empty};
-//   non-dag-pb nodes of every kind (string, int, bytes, list, map, link, null, bool, float).
+//
+//	link lists: none, one named, three named (unicode / spaces), unnamed links;
+//	Data: absent; garbage (bad wire types, truncated varint, random bytes x 20 | 2000 draws);
+//	  every UnixFS type 0..5 with and without inline bytes; unknown type numbers {6,7,100,2^31-1};
+//	  HAMT parameter grid: fanout {absent,0,3,7,12,1000,2048,4096,2^40,8,16,256,1024} x hashType
+//	  {absent,0x22,0x12,0} x bitfield {absent, exact, one byte too long, empty};
+//	non-dag-pb nodes of every kind (string, int, bytes, list, map, link, null, bool, float).
+//
 // Each through unixfsnode.Reify and the "unixfs-preload" reifier, both on the decoded node.
 // Expectations: non-dag-pb -> same node back; no/garbage Data, Symlink, Metadata -> map kind, every
 // named link found by name; File/Raw -> bytes kind; Directory/valid HAMT -> map kind; unknown type
@@ -277,7 +279,9 @@ func TestBounded(t *testing.T) {
 	}
 
 	// non-dag-pb nodes come back unchanged
-	m, _ := qp.BuildMap(basicnode.Prototype.Any, 1, func(ma datamodel.MapAssembler) { qp.MapEntry(ma, "Links", qp.List(0, func(datamodel.ListAssembler) {})) })
+	m, _ := qp.BuildMap(basicnode.Prototype.Any, 1, func(ma datamodel.MapAssembler) {
+		qp.MapEntry(ma, "Links", qp.List(0, func(datamodel.ListAssembler) {}))
+	})
 	l, _ := qp.BuildList(basicnode.Prototype.Any, 1, func(la datamodel.ListAssembler) { qp.ListEntry(la, qp.Int(1)) })
 	others := map[string]datamodel.Node{
 		"string": basicnode.NewString("x"), "int": basicnode.NewInt(5), "bytes": basicnode.NewBytes([]byte{1, 2}),
